@@ -370,6 +370,25 @@ def runCol (reg : Registry) (rootElem : Term) (steps : List Step) (fin : ColFin)
   | .error e => .error e
   | .ok s => finishCol s fin
 
+/-- One translation in a process whose method table holds `defaults` (the backend's own
+declarations) when it starts: the query's metadata is processed on top of them, then the column
+is translated. -/
+structure QueryCol where
+  mds : List MethodMd
+  rootElem : Term
+  steps : List Step
+  fin : ColFin
+
+def translateOne (defaults : Registry) (q : QueryCol) : Except Err ColOut :=
+  match processMds q.mds defaults with
+  | .error e => .error e
+  | .ok reg => runCol reg q.rootElem q.steps q.fin
+
+/-- Several translations one after the other in one process. The property's reading: nothing a
+translation learns (in particular a `double` guess) is carried to the next one. -/
+def translateAll (defaults : Registry) (qs : List QueryCol) : List (Except Err ColOut) :=
+  qs.map (translateOne defaults)
+
 /-! ## 8. namespaces and enums -/
 
 abbrev Seg := List Char
